@@ -23,7 +23,8 @@ CASE_ID = "x-schemathesis-testcaseid"
 VOLATILE = {CASE_ID}
 
 
-SOURCES = ["hashseed", "entropy", "clock", "schedule", "prefix", "workers"]
+# "disk": the same run twice in one working directory with the user's default (on-disk) example database setting
+SOURCES = ["hashseed", "entropy", "clock", "schedule", "prefix", "workers", "disk"]
 
 
 def gen_desc(verif_seed: int, i: int, tier: str = "quick") -> dict:
@@ -38,6 +39,11 @@ def gen_desc(verif_seed: int, i: int, tier: str = "quick") -> dict:
     behaviour = gen.gen_behaviour(rng, udesc, kinds=["http500", "marker", "undocumented"], p_none=0.5, max_n=2)
     if source == "workers":
         cfg["phases"] = [p for p in cfg["phases"] if p != "stateful"] or ["fuzzing"]
+    if source == "disk":
+        cfg["database"] = "default"
+        cfg["modes"] = ["positive"]
+        if not behaviour:
+            behaviour = gen.gen_behaviour(rng, udesc, kinds=["http500", "marker", "undocumented"], p_none=0.0, max_n=2)
     return {
         "property": PROPERTY,
         "profile": "c13",
@@ -72,6 +78,11 @@ def variant_b(desc_a: dict, verif_seed: int) -> dict:
     elif source == "workers":
         b["config"]["workers"] = rng.choice([2, 3, 4])
         b["schedule"] = gen.gen_schedule(rng)
+    elif source == "disk":
+        # history on disk: the identical run happened before in this working directory
+        pre = copy.deepcopy(desc_a)
+        pre.pop("source", None)
+        b["prefix"] = pre
     elif source == "prefix":
         prng = random.Random(desc_a["run_seed"] ^ 0xCAFE)
         b["prefix"] = {
